@@ -1264,7 +1264,7 @@ class LoopCombinatorStep(CombinatorStep):
                             logger.debug(
                                 f"Step {self.name} received termination token for port {task_name}"
                             )
-                        if token.value in (Status.FAILED, Status.CANCELLED):
+                        if token.value not in (Status.COMPLETED, Status.SKIPPED):
                             self.iteration_termination_checklist.get(task_name).clear()
                         terminated.append(task_name)
                     # If an IterationTerminationToken is received, mark the corresponding iteration as terminated
